@@ -45,6 +45,33 @@ def detected_style(text):
     return "numpydoc"
 
 
+def observed_style(text):
+    """the style the REAL parse_docstring dispatches on for this text (not a re-implementation of the cascade)"""
+    import fam_docparse
+    return fam_docparse._style_sym(text)
+
+
+# the section / field tokens of the three styles as they were when the finding `text-contains-section-token` was recorded:
+# that class absorbs a text field that holds one of THESE; a field that is read as a section header of another style although
+# it holds none of them is a different failure (style confusion on plain prose)
+RECORDED_TOKENS = ((":param", ":cvar", ":ivar", ":var", ":type", ":return", ":rtype"),
+                   ("Args:", "Kwargs:", "Raises:", "Returns:"),
+                   ("Parameters\n----------", "Returns\n-------"))
+
+
+def text_fields(ir):
+    """the text fields the classifier inspects for section tokens: summary, prose and type of every entry"""
+    out = [ir.get("doc")]
+    r = (ir.get("returns") or {}).get("return_type")
+    for p in list(ir["params"].values()) + ([r] if r else []):
+        out += [p.get("doc"), p.get("typ")]
+    return [x for x in out if isinstance(x, str)]
+
+
+def holds_recorded_token(ir):
+    return any(t in f for f in text_fields(ir) for group in RECORDED_TOKENS for t in group)
+
+
 def _enc_scanned(sc, style):
     ds = impl().docstring_utils
     a = getattr(ds.ARG_TOKENS, style)[0]
@@ -455,6 +482,17 @@ def gen(rng, n, tier="quick"):
             add(mutate_text(rng, t), "emitted-mutant:" + style)
         else:
             add(gen_malformed(rng), "malformed")
+    # texts emitted from clean IRs whose summary / prose holds a section-header look-alike of some style (`Note:`, `Yields:`,
+    # `See Also:`, `:raises E:` ...), in either style, through the whole parse_docstring (style detection included)
+    for kind, ir in gen_header_word_irs(rng, max(4, n // 25)):
+        style = rng.choice(STYLES)
+        try:
+            text = emit_text(ir, style, rng.random() < 0.2, rng.random() < 0.75)
+        except Exception:  # noqa
+            continue
+        if is_ascii_text(text):
+            cases.append({"fam": NAME, "fn": "ng_parse_docstring", "args": _flags(rng) + [text],
+                          "tags": ["emitted:" + style, kind]})
     return cases
 
 
@@ -562,8 +600,9 @@ def impl_roundtrip(ir, style):
         text = emit_text(ir, style, False, True)
     except Exception as e:  # noqa
         return False, "emit raises " + type(e).__name__
-    if detected_style(text) != style:
-        return False, "text read as " + detected_style(text)
+    read_as = observed_style(text)
+    if read_as != style:
+        return False, "text read as " + read_as
     try:
         ir2 = m.parse.docstring(text, emit_default_doc=False)
     except Exception as e:  # noqa
@@ -594,6 +633,42 @@ def gen_oracle_irs(rng, n):
     return out
 
 
+def gen_header_word_irs(rng, n):
+    """[(kind, ir)]: IRs of the proved shape (typed parameters, clean one-line prose, type-consistent defaults, defaulted
+    parameters last) in which the summary, one parameter's prose or the prose of the return entry holds a word followed by a
+    colon that looks like a section header of some docstring style (`Note:`, `Yields:`, `Example:`, `See Also:`,
+    `Attributes:` ...), a bare header word, or a ReST field look-alike (`:raises E:`, `:keyword k:`)"""
+    out = []
+    words = G.HEADER_WORDS * 3 + G.HEADER_BARE + G.REST_FIELD_LOOKALIKES
+    for _ in range(n):
+        ir, _ = gen_ir.gen_ir(rng, nparams=rng.choice([1, 2, 2, 3]), clean=True, kwargs=False,
+                              returns=rng.choice(["none", "none", "both"]))
+        ir = order_defaults_last(ir)
+        if ir["returns"]:
+            # (a return entry after a defaulted parameter is a recorded finding of its own: keep these points inside the guard)
+            for q in ir["params"].values():
+                q.pop("default", None)
+        sites = ["param"] * 3 + ["summary"] * 2 + (["return"] if ir["returns"] else [])
+        site = rng.choice(sites)
+        t = G.header_word_prose(rng, words=words)
+        if site == "param":
+            ir["params"][rng.choice(list(ir["params"]))]["doc"] = t
+        elif site == "return":
+            ir["returns"]["return_type"]["doc"] = t
+        else:
+            k = rng.random()
+            lines = ir["doc"].split("\n")
+            if k < 0.4:
+                lines.append(t)
+            elif k < 0.6:
+                lines.insert(0, t)
+            else:
+                lines = [t]
+            ir["doc"] = "\n".join(lines)
+        out.append(("header-words:" + site, ir))
+    return out
+
+
 def order_defaults_last(ir):
     """reorder so that parameters with a default follow those without (the order Python signatures impose)"""
     ir = copy.deepcopy(ir)
@@ -606,7 +681,7 @@ def order_defaults_last(ir):
 
 def oracle_ng(rng, n, style):
     """prop-module oracle format: real emitter -> real parser -> same_interface -> classify (Coq finding_class_C01_ng)"""
-    pts = gen_oracle_irs(rng, n)
+    pts = gen_oracle_irs(rng, n) + gen_header_word_irs(rng, max(1, n // 5))
     reqs = [dumps([Sym("c01_class_ng"), Sym(style), irwire.enc_ir(ir)]) for _, ir in pts]
     reqs2 = [dumps([Sym("c01_holds_ng"), Sym(style), irwire.enc_ir(ir)]) for _, ir in pts]
     reqs3 = [dumps([Sym("c01_scan_link_ng"), Sym(style), irwire.enc_ir(ir)]) for _, ir in pts]
@@ -621,6 +696,14 @@ def oracle_ng(rng, n, style):
             continue
         cls = None if ce == "none" else unhx(ce[1])
         ok, what = impl_roundtrip(ir, style)
+        if cls == "text-contains-section-token" and not holds_recorded_token(ir):
+            # the classifier follows the token tables of the tree under test; the recorded finding is about the tokens recorded
+            hist["section-token-class-without-recorded-token:" + ("holds" if ok else "fails")] += 1
+            cls = None
+            if not ok:
+                what += " [no text field holds a section token of the recorded finding text-contains-section-token]"
+        if kind.startswith("header-words"):
+            hist[kind + ":" + ("holds" if ok else "fails") + ":" + (cls or "in-guard")] += 1
         hist[("holds" if ok else "fails") + ":" + (cls or "in-guard")] += 1
         case = {"style": style, "ir": ir_to_json(ir)}
         key = dumps(irwire.enc_ir(ir))
@@ -648,9 +731,11 @@ def oracle_ng(rng, n, style):
         "scan_link_checked": link_checked,
         "evaluations": len(pts),
         "distinct_nontrivial": len(seen),
-        "rule": "IRs from gen_ir (clean, general) and perturbed shapes; %s text from the real emit.docstring(word_wrap=False), "
+        "rule": "IRs from gen_ir (clean, general), perturbed shapes and clean IRs whose summary / prose holds a section-header "
+                "look-alike of any style (the text must be read back as %s: the style the real parse_docstring dispatches on is "
+                "observed); %s text from the real emit.docstring(word_wrap=False), "
                 "read by the real parse.docstring(emit_default_doc=False), compared with same_interface; non-trivial = "
-                "distinct IR with >= 1 parameter inside guard_C01_ng" % style,
+                "distinct IR with >= 1 parameter inside guard_C01_ng" % (style, style),
         "failures": failures,
         "model_impl_property_disagreements": disagree,
         "histogram": dict(hist),
